@@ -51,7 +51,7 @@ GluePolys ==
     IN  {<<[FineLoop(0, GA, GF, 0, y0, m, y1, 0, 0, 0, FALSE, pt) EXCEPT !.glue = 1],
            [FineLoop(0, GA, GF, n - w, y0, n, y1, 0, 0, 0, FALSE, pt) EXCEPT !.glue = 2]>> :
             m \in {x \in GlueXs : 0 < x /\ x <= n}, w \in {x \in GlueXs : 0 < x /\ x <= n},
-            y0 \in YsA, y1 \in {y \in YsA : y > y0}, pt \in PitchA}
+            y0 \in YsA, y1 \in YsA, pt \in PitchA}
 IsGlue(P) == P[1].glue = 1
 PolysA == PolysOf(SA, HA, MaxLoopsA) \cup {P \in GluePolys : \A k \in 1..2 : WellFormed(P[k], GF) /\ P[1].Y0 < P[1].Y1}
 PolysB == PolysOf(SB, HB, MaxLoopsB)
@@ -121,9 +121,10 @@ PairTheorems ==
         \* inside the common side, each once
         /\ (IsGlue(P0) =>
               LET g == t[8]
-                  inner(l, p) == IF P0[2].f % 2 = 0 THEN (p[1] = 0 \/ p[1] = Side(GF)) /\ l.Y0 < p[2] /\ p[2] < l.Y1
-                                 ELSE (p[2] = 0 \/ p[2] = Side(GF)) /\ l.X0 < p[1] /\ p[1] < l.X1
-                  half(k) == {<<P0[k].f, p[1], p[2]>> : p \in {q \in Range(SceneVerts[k]) : ~inner(P0[k], q)}}
+                  c(k) == IF k = 1 THEN 0 ELSE Side(GF)      \* coordinate of the common side in half k
+                  inner(k, p) == IF P0[2].f % 2 = 0 THEN p[1] = c(k) /\ P0[k].Y0 < p[2] /\ p[2] < P0[k].Y1
+                                 ELSE p[2] = c(k) /\ P0[k].X0 < p[1] /\ p[1] < P0[k].X1
+                  half(k) == {<<P0[k].f, p[1], p[2]>> : p \in {q \in Range(SceneVerts[k]) : ~inner(k, q)}}
                   onSide(p) == IF P0[2].f % 2 = 0 THEN p[2] = Side(GF) ELSE p[3] = Side(GF)
               IN  /\ Cardinality(Range(g)) = Len(g)
                   /\ Range(g) = half(1) \cup {p \in half(2) : ~onSide(p)})
